@@ -44,7 +44,7 @@ func in(class string, b []byte) Item {
 }
 
 var narrowRunes = []string{"a", "b", "x", "Z", "0", "~", "!", " ", "é", "ü", "ß", "€", "λ", "Ж", "→"}
-var wideRunes = []string{"🐹", "🎉", "中", "文", "한", "あ", "Ｗ"}
+var wideRunes = []string{"🐹", "🎉", "中", "文", "한", "あ", "Ｗ", "⸺", "⸻"} // the last two are 3 and 4 cells wide
 var zeroRunes = []string{"́", "‍", "️", "­"}
 
 func (g *genCtx) param() string {
